@@ -93,8 +93,11 @@ class C13(Sim):
         "copy_of_a_copy", "edit_copy_then_process_original", "process_other_between_inputs_and_process", "restart_after_abort",
         "toggle_process_restore_process", "linear_or_function_engine_copied", "batch_then_scalar_same_engine",
         "abort_with_rule_already_triggered", "restart_after_crash", "crash_inside_reload_rules", "history_free_checked",
-        "idempotence_checked", "inplace_container_edit", "replace_term_and_restart", "copy_crashed",
+        "idempotence_checked", "inplace_container_edit", "replace_term_and_restart", "copy_crashed", "shipped_example_engine",
     ]
+
+    def prepare(self) -> None:
+        S.load_example_specs()
 
     # ---------------------------------------------------------------- generation
     def cases(self, rng, run: int, tier: str) -> Iterator[dict]:
@@ -107,7 +110,9 @@ class C13(Sim):
             if o["family"] == "takagi":
                 names_in = [v["name"] for v in sp["inputs"]]
                 o["terms"][0] = S.gen_term(rng, rng.choice(["Linear", "Function"]), o["terms"][0]["name"], 0, 1, names_in, [], False)
-        vector_ok = all(b["activation"]["cls"] == "General" for b in sp["blocks"])
+        if rng.random() < 0.12:
+            sp = S.example_spec(rng, allow_fn_reads_output=True, randomise_cascade=rng.random() < 0.5) or sp
+        vector_ok = all(b["activation"] and b["activation"]["cls"] == "General" for b in sp["blocks"])
         if arm == "crash":
             yield from self._crash_cases(rng, sp, vector_ok, tier)
             return
@@ -163,6 +168,8 @@ class C13(Sim):
                 kind = rng.choice(["in", "out"])
                 vs = sp["inputs"] if kind == "in" else sp["outputs"]
                 vi = rng.randrange(len(vs))
+                if not vs[vi]["terms"]:
+                    continue
                 ti = rng.randrange(len(vs[vi]["terms"]))
                 old = vs[vi]["terms"][ti]
                 lo, hi = float(vs[vi]["min"]), float(vs[vi]["max"])
@@ -244,8 +251,10 @@ class C13(Sim):
             return out
         live = [Live(e0, s0, copy.deepcopy(sp), copy.deepcopy(sp), [], 0)]
         live[0].cached = EO.snapshot(e0)
+        if sp.get("flags", {}).get("example"):
+            st.hit("probes.shipped_example_engine")
         has_ref_terms = any(t["cls"] in ("Linear", "Function") for v in sp["inputs"] + sp["outputs"] for t in v["terms"])
-        fam = "".join(sorted({o["family"][0] for o in sp["outputs"]})) + "".join(sorted({b["activation"]["cls"][0] for b in sp["blocks"]}))
+        fam = "".join(sorted({o["family"][0] for o in sp["outputs"]})) + "".join(sorted({(b["activation"] or {"cls": "-"})["cls"][0] for b in sp["blocks"]}))
         grams: set[str] = set()
         hist: list[str] = []
         pending_inputs: dict[int, bool] = {}
